@@ -14,6 +14,9 @@ META = {
     "level": "Decides the structural clauses: each do*/new* helper script sends the PMS destination (into/insinto/exeinto/docinto roots, fixed /usr/share/... roots, /etc/{conf.d,init.d,env.d}, /usr/include) and option variables; default modes are the PMS ones (0644 docs/man/info/mo/html/static libs, 0755 bin/sbin/shared libs/dirs); ownership is applied before the mode so set-id bits survive; an existing destination (dangling symlink included) is removed unconditionally before copying and the copy never writes through a symlink; the link directory of `dosym -r` is os.path.dirname (no-slash names resolve against '/'); directories without -r, a missing link name and man pages without a section are rejected; -r/dodoc -r/doman language handling are gated by the EAPI options PMS names. Does NOT decide the resulting trees for concrete inputs.",
     "note": "",
 }
+META["technique"] += "; " + 'class-level write ban on the helper implementations'
+META["level"] += " Added after the second round of independent changes: " + "(R6) no helper call edits a class-level default (dohtml's extension list, option tables)."
+META["technique"] += "; " + 'generic pack G on the anchored files (optional-flag shift, closures outliving a loop iteration, single-pass iterables consumed twice, %-templates built from data, in-place writes to class-level / memoised objects, generators mutating what they yielded, memo keys that are projections)'
 MOD = "pkgcore.ebuild.ebd_ipc"
 HELPERS = "data/lib/pkgcore/ebd/helpers"
 # helper -> (--dest expression as written in the script, PMS source)
